@@ -40,7 +40,6 @@ EXPLANATION = ("SPECFAIL messages start with class=<fingerprint>: endnode-visibi
 # tree (fix: commit for class=endnode-visibility and/or known_findings entries, see the C13 report): with the
 # msg_re patterns ^class=(endnode-visibility|crash-(resize-)?assert-segment-rect-intersection) and
 # ^class=(bad-bend-after-parallel-segment|crash-(resize-)?assert-convex-bend) registered, seeds 1..5 are quiet in both tiers.
-WIP = True
 
 
 def plan(tier, seed, searching):
